@@ -171,6 +171,32 @@ Theorem C10_enabled_macro : forall f lvl c,
 Proof. exact enabled_macro. Qed.
 Print Assumptions C10_enabled_macro.
 
+(** With the cargo feature `log` (and `log-always`): enabled -> still exactly once; disabled -> nothing reaches the
+    collector, and the expressions are evaluated (once) exactly when the log-only code hands the fields to the `log`
+    crate ([spec_log_formats]: documented behaviour, property C18) - never once a dispatcher has been set, unless
+    `log-always`.  The log-only conditions are read from `if_log_enabled!` / `__tracing_log!` under each feature set. *)
+Theorem C10_lazy_with_log : forall ls inv c, wf_inv inv = true ->
+  exists o, run_log ls inv c = Some o
+    /\ (guard c (i_level inv) = true -> o_ticks o = spec_ticks (i_fields inv) /\ o_delivered o <> None)
+    /\ (guard c (i_level inv) = false -> o_delivered o = None
+         /\ o_ticks o = (if spec_log_formats ls (i_kind inv) then spec_ticks (i_fields inv) else []))
+    /\ (l_mode ls = LogOn -> l_dispatch_ever ls = true -> guard c (i_level inv) = false -> o_ticks o = []).
+Proof. exact lazy_with_log. Qed.
+Print Assumptions C10_lazy_with_log.
+
+Example C10_lazy_with_log_nonvacuous :
+  let off := mk_coll 5 5 Never true in
+  (* `log` on, no dispatcher ever set, logger wants it: a disabled event evaluates its fields (for the log record) *)
+  option_map o_ticks (run_log (mk_ls LogOn true false true true) ex_inv off) = Some [3; 4; 0; 1; 2] /\
+  (* ... not when the logger declines, but a disabled SPAN does even then *)
+  option_map o_ticks (run_log (mk_ls LogOn true false true false) ex_inv off) = Some [] /\
+  option_map o_ticks (run_log (mk_ls LogOn true false false false) (mk_inv MSpan "" 3 false ex_fields) off) = Some [3; 4; 0; 1; 2] /\
+  (* ... and never once a dispatcher has been set *)
+  option_map o_ticks (run_log (mk_ls LogOn true true true true) ex_inv off) = Some [] /\
+  (* enabled: once, whatever the log side says *)
+  option_map o_ticks (run_log (mk_ls LogAlways true true true true) ex_inv ex_on) = Some [3; 4; 0; 1; 2].
+Proof. vm_compute. repeat split. Qed.
+
 (** Each filtering stage alone disables: static (interest never), dynamic (enabled = false), the level cap
     (max_level_hint / the static max level). *)
 Theorem C10_disabled_stages : forall c lvl,
